@@ -221,6 +221,31 @@ def run(tier, seed):
     sc_cases.append('(%s, %s)' % (labs, gnat(code)))
     sc_objs.append({'labels': flat.tolist(), 'pipeline_output': pout.tolist()})
 
+  # ---- two warpers from the factory used side by side (one per metric, as the GP designers do): each un-warps its OWN labels
+  for k in range(12 if quick else 120):
+    ya = np.array(sorted({round(r.uniform(-5, 5), 3) for _ in range(r.randrange(4, 9))}), dtype=float).reshape(-1, 1)
+    yb = np.array(sorted({round(r.uniform(50, 500), 2) for _ in range(r.randrange(4, 9))}), dtype=float).reshape(-1, 1)
+    if len(ya) < 3 or len(yb) < 3:
+      continue
+    try:
+      wa, wb = ow.create_default_warper(), ow.create_default_warper()
+      oa = np.asarray(wa.warp(ya.copy()))
+      ob = np.asarray(wb.warp(yb.copy()))
+      back_a = np.asarray(wa.unwarp(oa.copy())).flatten()
+      back_b = np.asarray(wb.unwarp(ob.copy())).flatten()
+      rep.case({'two_default_warpers': [ya.flatten().tolist(), yb.flatten().tolist()]}, True)
+      rep.count('two_warpers_interleaved')
+      tol_a = 1e-6 * max(1.0, float(np.abs(ya).max()))
+      tol_b = 1e-6 * max(1.0, float(np.abs(yb).max()))
+      if back_a.shape != ya.flatten().shape or not np.allclose(back_a, ya.flatten(), atol=tol_a, rtol=1e-6):
+        viol('two default pipelines used side by side: the first no longer un-warps its own warped labels to the originals',
+             {'labels_a': ya.flatten().tolist(), 'labels_b': yb.flatten().tolist(), 'unwarped_a': back_a.tolist(), 'same_object': wa is wb})
+      elif back_b.shape != yb.flatten().shape or not np.allclose(back_b, yb.flatten(), atol=tol_b, rtol=1e-6):
+        viol('two default pipelines used side by side: the second does not un-warp its own warped labels to the originals',
+             {'labels_a': ya.flatten().tolist(), 'labels_b': yb.flatten().tolist(), 'unwarped_b': back_b.tolist()})
+    except Exception as e:  # pylint: disable=broad-except
+      viol('two default pipelines used side by side raised %s' % type(e).__name__, {'error': str(e)[:200]})
+
   # ---- log warper: numeric agreement of the live component with the translated formula
   for k in range(60 if quick else 600):
     o = r.choice([1.5, 1.5, 2.0, 1.01, 10.0])
